@@ -11,9 +11,14 @@
   * `c04_after_wrap` / `c04_exhausted_sticky`: once the sequence has wrapped, every further
     request is refused and the allocator stays exhausted — no ID is ever reused;
   * `c04_refusal_codes`: a refused registration is answered with a non-accepted return code.
-  That a stored binding is never replaced is checked over whole sessions by the monitor `Spec.c04`
-  (registry samples after every event of every implementation trace).
+  * **all runs** — `c04_never_reassigned`: whatever the client and the broker send, in any order and with
+    any timing (REGISTERs, SUBSCRIBEs, REGACKs for the gateway's own registrations — stray or repeated
+    ones too —, broker messages on new topics, exhaustion, everything else, every timer), a TopicID
+    that denotes a name in the gateway's registry at some point of a session denotes the same name at
+    every later point (invariant `K`, carried through every model function: `F4.*`, `F4.run`).
+  The monitor `Spec.c04` checks the same on the registry samples of every implementation trace.
 -/
+import Bisquitt.Lemmas.GwAuth
 import Bisquitt.Lemmas.GwSt
 import Bisquitt.Spec.Gateway
 
@@ -218,5 +223,835 @@ theorem c04_allocs (k : Nat) : ∀ (g : Gw), SeqOk g.idseq →
 /-- non-vacuity: the range 1..3 with ID 2 predefined for every client: five requests hand out
     1 and 3 and then nothing -/
 example : allocs 5 (Gw.init ⟨false, none, none, 10, 2, [([0x2A], [(2, [0x78])])]⟩ 1 3) = [1, 3] := by decide
+
+end Bisquitt.Gw
+
+/-! ## the registry over whole runs
+
+  Invariant `K`: every bound or reserved ID lies behind the allocation position (unless the allocator
+  is exhausted), a reserved ID (`regIds`: the gateway's own registrations) is unbound or bound to its
+  own name, reservations are injective, and every REGISTER exchange waiting for its REGACK is for a
+  reserved (name, ID).  `F4 g g'`: a model function keeps `K` and never rebinds (`Stable`). -/
+
+namespace Bisquitt.Gw
+open Bisquitt Gw
+
+/-- the ID lies behind the allocation position, or nothing is allocated any more -/
+def Behind (g : Gw) (i : UInt16) : Prop :=
+  g.exhausted = true ∨ g.idseq.overflow = true ∨ i.toNat < g.idseq.next.toNat
+
+/-- a REGISTER exchange waiting for its REGACK is for a reserved (name, ID) -/
+def txOk4 (R : List (Bytes × UInt16)) (k : TxKind) : Prop :=
+  ∀ q id m name snp n, k = .brokerPub q .awaitingRegack (.sn (.register id m name)) snp n → R.lookup name = some id
+
+structure K (g : Gw) : Prop where
+  gb : ∀ i n, g.registered.lookup i = some n → Behind g i
+  rb : ∀ n i, g.regIds.lookup n = some i → Behind g i
+  rc : ∀ n i, g.regIds.lookup n = some i → g.registered.lookup i = none ∨ g.registered.lookup i = some n
+  ri : ∀ n n' i, g.regIds.lookup n = some i → g.regIds.lookup n' = some i → n = n'
+  sq : g.exhausted = true ∨ SeqOk g.idseq
+  tx : ∀ t ∈ g.txs, txOk4 g.regIds t.kind
+
+/-- no binding of the registry is lost or changed -/
+def Stable (g g' : Gw) : Prop := ∀ i n, g.registered.lookup i = some n → g'.registered.lookup i = some n
+
+def F4 (g g' : Gw) : Prop := K g → K g' ∧ Stable g g'
+
+theorem Stable.refl (g : Gw) : Stable g g := fun _ _ h => h
+theorem Stable.trans {a b c : Gw} (h1 : Stable a b) (h2 : Stable b c) : Stable a c := fun i n h => h2 i n (h1 i n h)
+theorem F4.refl (g : Gw) : F4 g g := fun h => ⟨h, Stable.refl g⟩
+theorem F4.trans {a b c : Gw} (h1 : F4 a b) (h2 : F4 b c) : F4 a c :=
+  fun h => ⟨(h2 (h1 h).1).1, (h1 h).2.trans (h2 (h1 h).1).2⟩
+
+/-- nothing the invariant reads has changed, except possibly the transactions, each of which is still fine -/
+theorem F4.of_tables {g g' : Gw} (hr : g'.registered = g.registered) (hi : g'.regIds = g.regIds) (hs : g'.idseq = g.idseq)
+    (he : g'.exhausted = g.exhausted) (ht : K g → ∀ t ∈ g'.txs, txOk4 g.regIds t.kind) : F4 g g' := by
+  intro h
+  refine ⟨⟨?_, ?_, ?_, ?_, ?_, ?_⟩, ?_⟩
+  · intro i n hl; rw [hr] at hl; have := h.gb i n hl; unfold Behind at *; rw [hs, he]; exact this
+  · intro n i hl; rw [hi] at hl; have := h.rb n i hl; unfold Behind at *; rw [hs, he]; exact this
+  · intro n i hl; rw [hi] at hl; rw [hr]; exact h.rc n i hl
+  · intro n n' i h1 h2; rw [hi] at h1 h2; exact h.ri n n' i h1 h2
+  · rw [he, hs]; exact h.sq
+  · rw [hi]; exact ht h
+  · intro i n hl; rw [hr]; exact hl
+
+theorem F4.of_eq {g g' : Gw} (hr : g'.registered = g.registered) (hi : g'.regIds = g.regIds) (hs : g'.idseq = g.idseq)
+    (he : g'.exhausted = g.exhausted) (ht : g'.txs = g.txs) : F4 g g' :=
+  F4.of_tables hr hi hs he (fun h t hm => h.tx t (by rw [← ht]; exact hm))
+
+theorem F4.emit (g : Gw) (o : Out) : F4 g (g.emit o) := F4.of_eq rfl rfl rfl rfl rfl
+theorem F4.snSend (g : Gw) (p : Pkt) (tx : Option Nat) : F4 g (g.snSend p tx) := by
+  unfold Gw.snSend; split
+  · exact F4.of_eq rfl rfl rfl rfl rfl
+  · exact F4.emit g _
+theorem F4.snSendNow (g : Gw) (p : Pkt) : F4 g (g.snSendNow p) := F4.emit g _
+theorem F4.mqttSend (g : Gw) (p : MqPkt) : F4 g (g.mqttSend p) := F4.emit g _
+
+theorem F4.setTx (g : Gw) (t : Tx) (h : K g → txOk4 g.regIds t.kind) : F4 g (g.setTx t) := by
+  refine F4.of_tables rfl rfl rfl rfl (fun hK x hx => ?_)
+  unfold Gw.setTx at hx
+  simp only [List.mem_map] at hx
+  obtain ⟨y, hy, rfl⟩ := hx
+  split
+  · exact h hK
+  · exact hK.tx y hy
+
+theorem F4.runFinally (g : Gw) (t : Tx) : F4 g (g.runFinally t) := by
+  unfold Gw.runFinally
+  split
+  · split <;> exact F4.of_eq rfl rfl rfl rfl rfl
+  · split <;> exact F4.of_eq rfl rfl rfl rfl rfl
+  · exact F4.of_eq rfl rfl rfl rfl rfl
+
+theorem F4.finishTx (g : Gw) (id : Nat) : F4 g (g.finishTx id) := by
+  unfold Gw.finishTx
+  split
+  · rename_i t ht
+    split
+    · exact F4.refl g
+    · exact F4.trans (F4.setTx g { t with done := true, timer := none } (fun hK => hK.tx t (getTx_mem' ht))) (F4.runFinally _ t)
+  · exact F4.refl g
+
+theorem F4.fail (g : Gw) (c : EndCls) : F4 g (g.fail c) := by
+  unfold Gw.fail; split <;> exact F4.of_eq rfl rfl rfl rfl rfl
+
+theorem F4.newTx (g : Gw) (k : TxKind) (key : TxKey) (tm : Option Nat) (h : K g → txOk4 g.regIds k) : F4 g (g.newTx k key tm).2 := by
+  refine F4.of_tables rfl rfl rfl rfl (fun hK x hx => ?_)
+  unfold Gw.newTx at hx
+  simp only [List.mem_append, List.mem_singleton] at hx
+  rcases hx with hx | rfl
+  · exact hK.tx x hx
+  · exact h hK
+
+theorem ok4_of_not_bp {R : List (Bytes × UInt16)} {k : TxKind} (h : ∀ q st d snp n, k ≠ .brokerPub q st d snp n) : txOk4 R k :=
+  fun q id m name snp n hk => absurd hk (h _ _ _ _ _)
+
+theorem F4.storeById (g : Gw) (m : UInt16) (id : Nat) : F4 g (g.storeById m id) := F4.of_eq rfl rfl rfl rfl rfl
+theorem F4.storeByIdB (g : Gw) (m : UInt16) (id : Nat) : F4 g (g.storeByIdB m id) := F4.of_eq rfl rfl rfl rfl rfl
+theorem F4.setConnectTx (g : Gw) (id : Nat) : F4 g (g.setConnectTx id) := F4.of_eq rfl rfl rfl rfl rfl
+theorem F4.setSt (g : Gw) (s : CState) : F4 g (g.setSt s) := F4.of_eq rfl rfl rfl rfl rfl
+theorem F4.setNow (g : Gw) (t : Nat) : F4 g (g.setNow t) := F4.of_eq rfl rfl rfl rfl rfl
+theorem F4.clearBuffer (g : Gw) : F4 g g.clearBuffer := F4.of_eq rfl rfl rfl rfl rfl
+theorem F4.cancelSleepPinger (g : Gw) : F4 g g.cancelSleepPinger := F4.of_eq rfl rfl rfl rfl rfl
+theorem F4.startSleepPinger (g : Gw) (d : UInt16) : F4 g (g.startSleepPinger d) := F4.of_eq rfl rfl rfl rfl rfl
+
+/-! ### the allocator -/
+
+theorem newTopicId_frame (g : Gw) : g.newTopicId.2.registered = g.registered ∧ g.newTopicId.2.regIds = g.regIds ∧
+    g.newTopicId.2.txs = g.txs := by
+  unfold Gw.newTopicId
+  split
+  · exact ⟨rfl, rfl, rfl⟩
+  · simp only
+    split
+    · exact ⟨rfl, rfl, rfl⟩
+    · split <;> exact ⟨rfl, rfl, rfl⟩
+
+theorem newTopicId_success (g g' : Gw) (id : UInt16) (h : g.newTopicId = (some id, g')) :
+    g.exhausted = false ∧ g.idseq.overflow = false ∧ g'.exhausted = false := by
+  have he : g.exhausted = false := by
+    cases hx : g.exhausted with
+    | false => rfl
+    | true => rw [c04_exhausted_sticky g hx] at h; cases h
+  have ho : g.idseq.overflow = false := by
+    cases hx : g.idseq.overflow with
+    | false => rfl
+    | true => have := (c04_after_wrap g hx).1; rw [h] at this; cases this
+  refine ⟨he, ho, ?_⟩
+  unfold Gw.newTopicId at h
+  simp only [he, Bool.false_eq_true, if_false] at h
+  split at h
+  · cases h
+  · split at h
+    · simp only [Prod.mk.injEq, Option.some.injEq] at h
+      rw [← h.2]
+    · cases h
+
+/-- a successful allocation keeps `K`, and the new ID is unbound, unreserved and `Behind` afterwards -/
+theorem alloc_ok (g g' : Gw) (id : UInt16) (h : g.newTopicId = (some id, g')) (hK : K g) :
+    K g' ∧ Stable g g' ∧ g'.registered = g.registered ∧ g'.regIds = g.regIds ∧ Behind g' id ∧
+    g.registered.lookup id = none ∧ (∀ n, g.regIds.lookup n ≠ some id) := by
+  obtain ⟨he, ho, he'⟩ := newTopicId_success g g' id h
+  have hfr := newTopicId_frame g
+  rw [h] at hfr
+  obtain ⟨hr, hi, ht⟩ := hfr
+  have hsq : SeqOk g.idseq := by
+    rcases hK.sq with hx | hx
+    · rw [he] at hx; cases hx
+    · exact hx
+  have inc := c04_increasing g g' id h hsq
+  have hge : g.idseq.next.toNat ≤ id.toNat := inc.2.1
+  have hlt : g'.idseq.overflow = false → id.toNat < g'.idseq.next.toNat := inc.2.2.2.2.2.2
+  have old : ∀ i, Behind g i → Behind g' i := by
+    intro i hb
+    rcases hb with hb | hb | hb
+    · rw [he] at hb; cases hb
+    · rw [ho] at hb; cases hb
+    · cases hov : g'.idseq.overflow with
+      | true => exact .inr (.inl hov)
+      | false => exact .inr (.inr (by have := hlt hov; omega))
+  have hnew : Behind g' id := by
+    cases hov : g'.idseq.overflow with
+    | true => exact .inr (.inl hov)
+    | false => exact .inr (.inr (hlt hov))
+  have fresh : ∀ i, Behind g i → i ≠ id := by
+    intro i hb e
+    rcases hb with hb | hb | hb
+    · rw [he] at hb; cases hb
+    · rw [ho] at hb; cases hb
+    · rw [e] at hb; omega
+  refine ⟨⟨?_, ?_, ?_, ?_, .inr inc.2.2.2.1, ?_⟩, ?_, hr, hi, hnew, ?_, ?_⟩
+  · intro i n hl; rw [hr] at hl; exact old i (hK.gb i n hl)
+  · intro n i hl; rw [hi] at hl; exact old i (hK.rb n i hl)
+  · intro n i hl; rw [hi] at hl; rw [hr]; exact hK.rc n i hl
+  · intro n n' i h1 h2; rw [hi] at h1 h2; exact hK.ri n n' i h1 h2
+  · rw [hi, ht]; exact hK.tx
+  · intro i n hl; rw [hr]; exact hl
+  · cases hx : g.registered.lookup id with
+    | none => rfl
+    | some n => exact absurd rfl (fresh id (hK.gb id n hx))
+  · intro n hx; exact absurd rfl (fresh id (hK.rb n id hx))
+
+theorem alloc_fail (g g' : Gw) (h : g.newTopicId = (none, g')) : F4 g g' := by
+  intro hK
+  have hfr := newTopicId_frame g
+  rw [h] at hfr
+  obtain ⟨hr, hi, ht⟩ := hfr
+  have hex := refused_exhausted g g' h
+  refine ⟨⟨?_, ?_, ?_, ?_, .inl hex, ?_⟩, ?_⟩
+  · intro i n _; exact .inl hex
+  · intro n i _; exact .inl hex
+  · intro n i hl; rw [hi] at hl; rw [hr]; exact hK.rc n i hl
+  · intro n n' i h1 h2; rw [hi] at h1 h2; exact hK.ri n n' i h1 h2
+  · rw [hi, ht]; exact hK.tx
+  · intro i n hl; rw [hr]; exact hl
+
+/-- binding a fresh ID (REGISTER / SUBSCRIBE of a new name) -/
+theorem F4.alloc_store (g g1 : Gw) (id : UInt16) (name : Bytes) (h : g.newTopicId = (some id, g1)) :
+    F4 g (g1.storeRegistered id name) := by
+  intro hK
+  obtain ⟨hK1, hst, hr, hi, hb, hfr, hfi⟩ := alloc_ok g g1 id h hK
+  have hG : ∀ i, i ≠ id → (g1.storeRegistered id name).registered.lookup i = g.registered.lookup i := by
+    intro i hi'; unfold Gw.storeRegistered; simp only; rw [hr]
+    simp only [List.lookup_cons]
+    have : (i == id) = false := by simpa using hi'
+    simp [this]
+  refine ⟨⟨?_, ?_, ?_, ?_, hK1.sq, ?_⟩, ?_⟩
+  · intro i n hl
+    by_cases hi' : i = id
+    · rw [hi']; exact hb
+    · rw [hG i hi'] at hl; exact hK1.gb i n (by rw [hr]; exact hl)
+  · exact hK1.rb
+  · intro n i hl
+    have hl' : g.regIds.lookup n = some i := by rw [← hi]; exact hl
+    have hne : i ≠ id := fun e => hfi n (by rw [← e]; exact hl')
+    rw [hG i hne]; exact hK.rc n i hl'
+  · exact hK1.ri
+  · exact hK1.tx
+  · intro i n hl
+    have hne : i ≠ id := by intro e; rw [e, hfr] at hl; cases hl
+    rw [hG i hne]; exact hl
+
+/-- binding a reserved ID (the REGACK of the gateway's own REGISTER) -/
+theorem F4.store_reserved (g : Gw) (id : UInt16) (name : Bytes) (hR : K g → g.regIds.lookup name = some id) :
+    F4 g (g.storeRegistered id name) := by
+  intro hK
+  have hR := hR hK
+  have hG : ∀ i, i ≠ id → (g.storeRegistered id name).registered.lookup i = g.registered.lookup i := by
+    intro i hi'; unfold Gw.storeRegistered; simp only [List.lookup_cons]
+    have : (i == id) = false := by simpa using hi'
+    simp [this]
+  have hGid : (g.storeRegistered id name).registered.lookup id = some name := by
+    unfold Gw.storeRegistered; simp
+  refine ⟨⟨?_, hK.rb, ?_, hK.ri, hK.sq, hK.tx⟩, ?_⟩
+  · intro i n hl
+    by_cases hi' : i = id
+    · rw [hi']; exact hK.rb name id hR
+    · rw [hG i hi'] at hl; exact hK.gb i n hl
+  · intro n i hl
+    by_cases hi' : i = id
+    · rw [hi'] at hl
+      rw [hi', hGid, hK.ri n name id hl hR]; exact .inr rfl
+    · rw [hG i hi']; exact hK.rc n i hl
+  · intro i n hl
+    by_cases hi' : i = id
+    · rw [hi'] at hl
+      rcases hK.rc name id hR with h2 | h2
+      · rw [h2] at hl; cases hl
+      · rw [h2] at hl; rw [hi', hGid]; exact hl
+    · rw [hG i hi']; exact hl
+
+/-- `registrationTopicId`: the reserved ID of the name, or a fresh one which is reserved now -/
+theorem registrationTopicId_ok (g g' : Gw) (topic : Bytes) (r : Option UInt16) (h : g.registrationTopicId topic = (r, g')) :
+    F4 g g' ∧ (∀ id, r = some id → g'.regIds.lookup topic = some id) := by
+  unfold Gw.registrationTopicId at h
+  split at h
+  · rename_i id hl
+    simp only [Prod.mk.injEq] at h
+    obtain ⟨rfl, rfl⟩ := h
+    exact ⟨F4.refl g, fun id' e => by injection e with e; rw [← e]; exact hl⟩
+  · rename_i hnone
+    split at h
+    · rename_i id g1 hn
+      simp only [Prod.mk.injEq] at h
+      obtain ⟨rfl, rfl⟩ := h
+      refine ⟨?_, fun id' e => by injection e with e; rw [← e]; simp [Gw.storeRegId]⟩
+      intro hK
+      obtain ⟨hK1, hst, hr, hi, hb, hfr, hfi⟩ := alloc_ok g g1 id hn hK
+      have hR : ∀ n, n ≠ topic → (g1.storeRegId topic id).regIds.lookup n = g.regIds.lookup n := by
+        intro n hne; unfold Gw.storeRegId; simp only [List.lookup_cons]; rw [hi]
+        have : (n == topic) = false := by simpa using hne
+        simp [this]
+      have hRt : (g1.storeRegId topic id).regIds.lookup topic = some id := by simp [Gw.storeRegId]
+      refine ⟨⟨hK1.gb, ?_, ?_, ?_, hK1.sq, ?_⟩, hst⟩
+      · intro n i hl
+        by_cases hne : n = topic
+        · rw [hne, hRt] at hl; injection hl with hl; rw [← hl]; exact hb
+        · rw [hR n hne] at hl; exact hK1.rb n i (by rw [hi]; exact hl)
+      · intro n i hl
+        show g1.registered.lookup i = none ∨ g1.registered.lookup i = some n
+        rw [hr]
+        by_cases hne : n = topic
+        · rw [hne, hRt] at hl; injection hl with hl; rw [← hl, hne]; exact .inl hfr
+        · rw [hR n hne] at hl; exact hK.rc n i hl
+      · intro n n' i h1 h2
+        by_cases hne : n = topic
+        · by_cases hne' : n' = topic
+          · rw [hne, hne']
+          · rw [hne, hRt] at h1; injection h1 with h1
+            rw [hR n' hne', ← h1] at h2; exact absurd h2 (hfi n')
+        · by_cases hne' : n' = topic
+          · rw [hne', hRt] at h2; injection h2 with h2
+            rw [hR n hne, ← h2] at h1; exact absurd h1 (hfi n)
+          · rw [hR n hne] at h1; rw [hR n' hne'] at h2; exact hK.ri n n' i h1 h2
+      · intro t ht q id' m name snp k hk
+        have ht' : t ∈ g.txs := by
+          have := (newTopicId_frame g).2.2; rw [hn] at this; simp only at this
+          rw [← this]; exact ht
+        have := hK.tx t ht' q id' m name snp k hk
+        by_cases hne : name = topic
+        · rw [hne, hnone] at this; cases this
+        · rw [hR name hne]; exact this
+    · rename_i g1 hn
+      simp only [Prod.mk.injEq] at h
+      obtain ⟨rfl, rfl⟩ := h
+      exact ⟨alloc_fail g _ hn, fun id e => by cases e⟩
+
+/-! ### transactions -/
+
+theorem ok4_bp_not_awaiting {R : List (Bytes × UInt16)} (q : UInt8) (st : BpSt) (d : BpData) (snp : Option Pkt) (n : Nat)
+    (h : st ≠ .awaitingRegack) : txOk4 R (.brokerPub q st d snp n) := by
+  intro q' id m name snp' n' hk
+  injection hk with _ h2
+  exact absurd h2 h
+
+theorem ok4_bp_mq {R : List (Bytes × UInt16)} (q : UInt8) (st : BpSt) (p : MqPkt) (snp : Option Pkt) (n : Nat) :
+    txOk4 R (.brokerPub q st (.mq p) snp n) := by
+  intro q' id m name snp' n' hk
+  injection hk with _ _ h3
+  cases h3
+
+theorem ok4_connect {R : List (Bytes × UInt16)} (st : ConnSt) (f : ConnFields) : txOk4 R (.connect st f) :=
+  ok4_of_not_bp (fun _ _ _ _ _ h => by cases h)
+
+theorem F4.armBp (g : Gw) (t : Tx) (q : UInt8) (s : BpSt) (d : BpData) (snp : Option Pkt)
+    (h : K g → txOk4 g.regIds (.brokerPub q s d snp 0)) : F4 g (g.armBp t q s d snp) := by
+  unfold Gw.armBp
+  split
+  · exact F4.refl g
+  · exact F4.setTx g _ h
+theorem F4.finishIfDone (g : Gw) (id : Nat) (s : BpSt) : F4 g (g.finishIfDone id s) := by
+  unfold Gw.finishIfDone; split
+  · exact F4.finishTx g id
+  · exact F4.refl g
+/-- `ProceedSN` to a state other than "awaiting REGACK" -/
+theorem F4.proceedSN (g : Gw) (id : Nat) (s : BpSt) (p : Pkt) (hs : s ≠ .awaitingRegack) : F4 g (g.proceedSN id s p) := by
+  unfold Gw.proceedSN
+  split
+  · split
+    · exact ((F4.armBp g _ _ _ _ _ (fun _ => ok4_bp_not_awaiting _ _ _ _ _ hs)).trans (F4.snSend _ _ _)).trans (F4.finishIfDone _ _ _)
+    · exact F4.refl g
+  · exact F4.refl g
+/-- `ProceedSN` with the REGISTER of a reserved (name, ID) -/
+theorem F4.proceedSN_register (g : Gw) (id : Nat) (tid m : UInt16) (name : Bytes) (hR : K g → g.regIds.lookup name = some tid) :
+    F4 g (g.proceedSN id .awaitingRegack (.register tid m name)) := by
+  unfold Gw.proceedSN
+  split
+  · split
+    · refine ((F4.armBp g _ _ _ _ _ (fun hK => ?_)).trans (F4.snSend _ _ _)).trans (F4.finishIfDone _ _ _)
+      intro q' id' m' name' snp' n' hk
+      injection hk with _ _ h3
+      injection h3 with h3
+      injection h3 with e1 _ e3
+      rw [← e1, ← e3]; exact hR hK
+    · exact F4.refl g
+  · exact F4.refl g
+theorem F4.proceedMQ (g : Gw) (id : Nat) (s : BpSt) (p : MqPkt) : F4 g (g.proceedMQ id s p) := by
+  unfold Gw.proceedMQ
+  split
+  · split
+    · exact ((F4.armBp g _ _ _ _ _ (fun _ => ok4_bp_mq _ _ _ _ _)).trans (F4.mqttSend _ _)).trans (F4.finishIfDone _ _ _)
+    · exact F4.refl g
+  · exact F4.refl g
+
+theorem F4.storeClientPub1 (g : Gw) (q : UInt8) (tid mid : UInt16) : F4 g (g.storeClientPub1 q tid mid) := by
+  unfold Gw.storeClientPub1
+  split
+  · exact (F4.newTx g _ _ _ (fun _ => ok4_of_not_bp (fun _ _ _ _ _ h => by cases h))).trans (F4.storeById _ _ _)
+  · exact F4.refl g
+theorem F4.handleClientPublish (g : Gw) (dup : Bool) (q : UInt8) (r : Bool) (tit : UInt8) (tid mid : UInt16) (d : Bytes) :
+    F4 g (g.handleClientPublish dup q r tit tid mid d) := by
+  unfold Gw.handleClientPublish
+  split
+  · exact F4.fail g _
+  · exact F4.fail g _
+  · split
+    · exact F4.fail g _
+    · exact (F4.storeClientPub1 g _ _ _).trans (F4.mqttSend _ _)
+theorem F4.forwardSubscribe (g : Gw) (dup : Bool) (q : UInt8) (mid : UInt16) (tp : Bytes) (tid : UInt16) :
+    F4 g (g.forwardSubscribe dup q mid tp tid) := by
+  unfold Gw.forwardSubscribe
+  split
+  · exact F4.fail g _
+  · exact ((F4.newTx g _ _ _ (fun _ => ok4_of_not_bp (fun _ _ _ _ _ h => by cases h))).trans (F4.storeById _ _ _)).trans (F4.mqttSend _ _)
+theorem F4.handleSubscribe (g : Gw) (dup : Bool) (q tit : UInt8) (mid tid : UInt16) (n : Bytes) :
+    F4 g (g.handleSubscribe dup q tit mid tid n) := by
+  unfold Gw.handleSubscribe
+  split
+  · exact F4.snSend g _ _
+  · split
+    · split
+      · split
+        · exact F4.forwardSubscribe g _ _ _ _ _
+        · split
+          · rename_i hn
+            exact (F4.alloc_store g _ _ n hn).trans (F4.forwardSubscribe _ _ _ _ _ _)
+          · rename_i hn
+            exact (alloc_fail g _ hn).trans (F4.snSend _ _ _)
+      · exact F4.forwardSubscribe g _ _ _ _ _
+    · split
+      · split
+        · exact F4.forwardSubscribe g _ _ _ _ _
+        · exact F4.fail g _
+      · split <;> exact F4.forwardSubscribe g _ _ _ _ _
+theorem F4.forwardUnsubscribe (g : Gw) (mid : UInt16) (tp : Bytes) : F4 g (g.forwardUnsubscribe mid tp) := by
+  unfold Gw.forwardUnsubscribe
+  split
+  · exact F4.fail g _
+  · exact F4.mqttSend g _
+theorem F4.handleUnsubscribe (g : Gw) (tit : UInt8) (mid tid : UInt16) (n : Bytes) : F4 g (g.handleUnsubscribe tit mid tid n) := by
+  unfold Gw.handleUnsubscribe
+  split
+  · exact F4.forwardUnsubscribe g _ _
+  · split
+    · split
+      · exact F4.forwardUnsubscribe g _ _
+      · exact F4.fail g _
+    · split <;> exact F4.forwardUnsubscribe g _ _
+theorem F4.handleRegister (g : Gw) (mid : UInt16) (n : Bytes) : F4 g (g.handleRegister mid n) := by
+  unfold Gw.handleRegister
+  split
+  · exact F4.snSend g _ _
+  · split
+    · exact F4.snSend g _ _
+    · split
+      · rename_i hn
+        exact (F4.alloc_store g _ _ n hn).trans (F4.snSend _ _ _)
+      · rename_i hn
+        exact (alloc_fail g _ hn).trans (F4.snSend _ _ _)
+
+/-- the REGACK of a REGISTER exchange: the transaction is one of the session's, so its (name, ID) is reserved -/
+theorem F4.bpRegack (g : Gw) (t : Tx) (q : UInt8) (s : BpSt) (d : BpData) (snp : Option Pkt) (rc : UInt8) (n : Nat)
+    (ht : t ∈ g.txs) (hk : t.kind = .brokerPub q s d snp n) : F4 g (g.bpRegack t q s d snp rc) := by
+  unfold Gw.bpRegack
+  split
+  · exact F4.refl g
+  · rename_i hs
+    split
+    · exact F4.finishTx g _
+    · split
+      · rename_i tid m name pub
+        have hs' : s = .awaitingRegack := by simpa using hs
+        have hR : K g → g.regIds.lookup name = some tid := fun hK => hK.tx t ht q tid m name (some pub) n (by rw [hk, hs'])
+        refine (F4.store_reserved g tid name hR).trans (F4.proceedSN _ _ _ _ ?_)
+        split <;> (try split) <;> simp
+      · exact F4.refl g
+
+theorem F4.startBrokerPub (g : Gw) (q : UInt8) (m : UInt16) (s0 : BpSt) (snp : Option Pkt) (s : BpSt) (p : Pkt)
+    (h0 : s0 ≠ .awaitingRegack ∨ True) (hp : F4 ((g.newTx (.brokerPub q s0 .none snp 0) (.byIdB m) none).2.storeByIdB m g.nextTx)
+      (((g.newTx (.brokerPub q s0 .none snp 0) (.byIdB m) none).2.storeByIdB m g.nextTx).proceedSN g.nextTx s p)) :
+    F4 g (g.startBrokerPub q m s0 snp s p) := by
+  unfold Gw.startBrokerPub
+  refine ((F4.newTx g _ _ _ (fun _ => ?_)).trans (F4.storeByIdB _ _ _)).trans hp
+  intro q' id m' name snp' n' hk
+  injection hk with _ _ h3
+  cases h3
+
+theorem F4.handleBrokerPublish (g : Gw) (dup : Bool) (q : UInt8) (r : Bool) (mid : UInt16) (tp pl : Bytes) :
+    F4 g (g.handleBrokerPublish dup q r mid tp pl) := by
+  unfold Gw.handleBrokerPublish
+  split
+  · exact F4.refl g
+  · split
+    · exact F4.refl g
+    · split
+      · split
+        · exact F4.snSend g _ _
+        · split
+          · exact F4.fail g _
+          · refine F4.startBrokerPub g _ _ _ _ _ _ (.inr trivial) (F4.proceedSN _ _ _ _ ?_)
+            split <;> simp
+      · split
+        · exact F4.fail g _
+        · split
+          · exact F4.fail g _
+          · split
+            · rename_i hn; exact (registrationTopicId_ok g _ tp _ hn).1.trans (F4.fail _ _)
+            · rename_i newId g' hn
+              have hok := registrationTopicId_ok g g' tp _ hn
+              refine hok.1.trans (F4.startBrokerPub g' _ _ _ _ _ _ (.inr trivial) (F4.proceedSN_register _ _ _ _ _ (fun _ => ?_)))
+              exact hok.2 newId rfl
+
+/-! ### the connect exchange, sleep, disconnect -/
+
+theorem F4.connAuthenticated (g : Gw) (t : Tx) (f : ConnFields) : F4 g (g.connAuthenticated t f) := by
+  unfold Gw.connAuthenticated
+  split
+  · exact (F4.setTx g _ (fun _ => ok4_connect _ _)).trans (F4.snSend _ _ _)
+  · exact (F4.setTx g _ (fun _ => ok4_connect _ _)).trans (F4.mqttSend _ _)
+theorem F4.connAuth (g : Gw) (t : Tx) (st : ConnSt) (f : ConnFields) (m d : Bytes) : F4 g (g.connAuth t st f m d) := by
+  unfold Gw.connAuth
+  split
+  · exact F4.refl g
+  · split
+    · split
+      · exact (F4.finishTx g _).trans (F4.fail _ _)
+      · exact F4.connAuthenticated g _ _
+    · unfold Gw.sendConnack
+      exact ((F4.snSend g _ _).trans (F4.finishTx _ _)).trans (F4.fail _ _)
+theorem F4.connWillTopic (g : Gw) (t : Tx) (st : ConnSt) (f : ConnFields) (q : UInt8) (r : Bool) (tp : Bytes) :
+    F4 g (g.connWillTopic t st f q r tp) := by
+  unfold Gw.connWillTopic
+  split
+  · exact F4.refl g
+  · split
+    · exact (F4.finishTx g _).trans (F4.fail _ _)
+    · exact (F4.setTx g _ (fun _ => ok4_connect _ _)).trans (F4.snSend _ _ _)
+theorem F4.connWillMsg (g : Gw) (t : Tx) (st : ConnSt) (f : ConnFields) (m : Bytes) : F4 g (g.connWillMsg t st f m) := by
+  unfold Gw.connWillMsg
+  split
+  · exact F4.refl g
+  · exact (F4.setTx g _ (fun _ => ok4_connect _ _)).trans (F4.mqttSend _ _)
+theorem F4.connConnack (g : Gw) (t : Tx) (st : ConnSt) (rc : UInt8) : F4 g (g.connConnack t st rc) := by
+  unfold Gw.connConnack Gw.sendConnack
+  split
+  · exact F4.refl g
+  · split
+    · exact ((F4.snSend g _ _).trans (F4.finishTx _ _)).trans (F4.fail _ _)
+    · have h0 : F4 g ({ g with st := .active } : Gw) := F4.of_eq rfl rfl rfl rfl rfl
+      exact (h0.trans (F4.snSend _ _ _)).trans (F4.finishTx _ _)
+theorem F4.cancelOldConnect (g : Gw) : F4 g g.cancelOldConnect := by
+  unfold Gw.cancelOldConnect
+  split
+  · exact F4.finishTx g _
+  · exact F4.refl g
+theorem F4.startConnect (g : Gw) (f : ConnFields) : F4 g (g.startConnect f) := by
+  unfold Gw.startConnect
+  have h1 : F4 g (g.newTx (.connect .awaitingAuth f) .connectType (some (g.now + Gen.connectTransactionTimeout))).2 :=
+    F4.newTx g _ _ _ (fun _ => ok4_connect _ _)
+  refine (h1.trans (F4.setConnectTx _ g.nextTx)).trans ?_
+  unfold Gw.startConnectTx
+  split
+  · exact F4.refl _
+  · split
+    · exact F4.connAuthenticated _ _ _
+    · exact F4.refl _
+theorem foldl_snSend_F4 (its : List BufItem) : ∀ g : Gw, F4 g (its.foldl (fun acc it => acc.snSend it.pkt it.tx) g) := by
+  induction its with
+  | nil => intro g; exact F4.refl g
+  | cons x xs ih => intro g; simp only [List.foldl_cons]; exact (F4.snSend g _ _).trans (ih _)
+theorem F4.flushBuffer (g : Gw) : F4 g g.flushBuffer := by
+  unfold Gw.flushBuffer
+  simp only
+  have h0 : F4 g ({ g with buffer := [] } : Gw) := F4.of_eq rfl rfl rfl rfl rfl
+  exact (h0.trans (foldl_snSend_F4 g.buffer _)).trans (F4.of_eq rfl rfl rfl rfl rfl)
+theorem F4.handleConnect (g : Gw) (will clean : Bool) (dur : UInt16) (cid : Bytes) : F4 g (g.handleConnect will clean dur cid) := by
+  unfold Gw.handleConnect
+  split
+  · have h0 : F4 g ({ g.cancelSleepPinger with st := .active } : Gw) := F4.of_eq rfl rfl rfl rfl rfl
+    exact (h0.trans (F4.snSend _ _ _)).trans (F4.flushBuffer _)
+  · split
+    · exact F4.snSend g _ _
+    · have h0 : F4 g ({ g with keepAlive := dur, clientId := cid } : Gw) := F4.of_eq rfl rfl rfl rfl rfl
+      exact (h0.trans (F4.cancelOldConnect _)).trans (F4.startConnect _ _)
+theorem F4.handlePingreq (g : Gw) : F4 g g.handlePingreq := by
+  unfold Gw.handlePingreq
+  split
+  · exact (((F4.setSt g _).trans (F4.flushBuffer _)).trans (F4.snSend _ _ _)).trans (F4.setSt _ _)
+  · exact F4.mqttSend g _
+theorem F4.handleSleep (g : Gw) (d : UInt16) : F4 g (g.handleSleep d) := by
+  unfold Gw.handleSleep
+  have h1 : F4 g (g.cancelSleepPinger.maybeSleepPinger d) := by
+    unfold Gw.maybeSleepPinger
+    split
+    · exact (F4.cancelSleepPinger g).trans (F4.startSleepPinger _ _)
+    · exact F4.cancelSleepPinger g
+  have h2 : ∀ x : Gw, F4 x x.clearBufferUnlessAsleep := by
+    intro x; unfold Gw.clearBufferUnlessAsleep; split
+    · exact F4.clearBuffer x
+    · exact F4.refl x
+  exact ((h1.trans (h2 _)).trans (F4.snSendNow _ _)).trans (F4.setSt _ _)
+theorem F4.handleDisconnect (g : Gw) (d : UInt16) : F4 g (g.handleDisconnect d) := by
+  unfold Gw.handleDisconnect Gw.handlePlainDisconnect
+  split
+  · exact (((F4.mqttSend g _).trans (F4.setSt _ _)).trans (F4.snSend _ _ _)).trans (F4.fail _ _)
+  · exact F4.handleSleep g d
+
+/-! ## every run: a TopicID once bound to a name never denotes another name -/
+
+theorem setDup_register {p : Pkt} {id m : UInt16} {name : Bytes} (h : setDup p = .register id m name) : p = .register id m name := by
+  cases p <;> simp_all [setDup]
+
+theorem F4.retryExpire (g : Gw) (t : Tx) (ht : t ∈ g.txs) : F4 g (g.retryExpire t) := by
+  have keep : ∀ (tm : Option Nat), K g → txOk4 g.regIds ({ t with timer := tm } : Tx).kind := fun _ hK => hK.tx t ht
+  unfold Gw.retryExpire
+  split
+  · rename_i q st data snp n hk0
+    split
+    · exact F4.setTx g _ (keep none)
+    · split
+      · exact F4.setTx g _ (keep _)
+      · split
+        · exact F4.finishTx g _
+        · split
+          · rename_i p _
+            have h1 : F4 g ({ g with buffer := g.buffer.map (fun (b : BufItem) =>
+                if b.tx == some t.id && b.pkt == p then { b with pkt := setDup p } else b) } : Gw) := F4.of_eq rfl rfl rfl rfl rfl
+            refine (h1.trans (F4.setTx _ _ (fun hK => ?_))).trans (F4.snSend _ _ _)
+            intro q' id m name snp' n' hk
+            injection hk with e1 e2 e3 e4 _
+            injection e3 with e3
+            have hp := setDup_register e3
+            have : t.kind = .brokerPub q' .awaitingRegack (.sn (.register id m name)) snp' n := by
+              rw [hk0, e1, e2, hp, e4]
+            exact hK.tx t ht q' id m name snp' n this
+          · exact (F4.setTx g _ (fun _ => ok4_bp_mq _ _ _ _ _)).trans (F4.mqttSend _ _)
+          · exact F4.finishTx g _
+  · exact F4.refl g
+
+theorem F4.txExpire (g : Gw) (t : Tx) (ht : t ∈ g.txs) : F4 g (g.txExpire t) := by
+  have keep : ∀ (tm : Option Nat), K g → txOk4 g.regIds ({ t with timer := tm } : Tx).kind := fun _ hK => hK.tx t ht
+  unfold Gw.txExpire
+  split
+  · split
+    · exact F4.setTx g _ (keep none)
+    · exact (F4.finishTx g _).trans (F4.fail _ _)
+  · split
+    · exact F4.setTx g _ (keep none)
+    · exact F4.finishTx g _
+  · split
+    · exact F4.setTx g _ (keep none)
+    · exact F4.finishTx g _
+  · exact F4.retryExpire g t ht
+
+theorem F4.fireDue (g : Gw) (d : Due) : F4 g (g.fireDue d) := by
+  unfold Gw.fireDue
+  split
+  · unfold Gw.fireTx
+    split
+    · rename_i t ht
+      exact (F4.setNow g _).trans (F4.txExpire _ t (getTx_mem' ht))
+    · exact F4.setNow g _
+  · unfold Gw.firePing
+    have h0 : ∀ (x : Gw) (i : Nat), F4 x ({ x with pingers := x.pingers.mapIdx (fun j (p : Pinger) =>
+        if j = i then { p with next := p.next + p.period } else p) } : Gw) := fun x i => F4.of_eq rfl rfl rfl rfl rfl
+    exact ((F4.setNow g _).trans (h0 _ _)).trans (F4.mqttSend _ _)
+  · exact F4.of_eq rfl rfl rfl rfl rfl
+
+theorem F4.finishSession (g : Gw) : F4 g g.finishSession := by
+  unfold Gw.finishSession
+  split
+  · split
+    · exact F4.refl g
+    · unfold Gw.shutdownDisconnect Gw.stopTimers Gw.emitEnd
+      have h1 : ∀ x : Gw, F4 x (if x.st = .active ∨ x.st = .awake then x.emit (.sn (encode (.disconnect 0))) else x) := by
+        intro x; split
+        · exact F4.emit x _
+        · exact F4.refl x
+      have h2 : ∀ x : Gw, F4 x ((x.emit (.ended x.endCls)).emit .mqClose) := fun x => (F4.emit x _).trans (F4.emit _ _)
+      refine (((F4.setNow g _).trans (h1 _)).trans (h2 _)).trans (F4.of_tables rfl rfl rfl rfl (fun hK t ht => ?_))
+      simp only [List.mem_map] at ht
+      obtain ⟨y, hy, rfl⟩ := ht
+      exact hK.tx y hy
+  · exact F4.refl g
+
+theorem F4.advance : ∀ (fuel : Nat) (g : Gw) (t : Nat), F4 g (advance fuel g t) := by
+  intro fuel
+  induction fuel with
+  | zero => intro g t; exact F4.setNow g _
+  | succ n ih =>
+    intro g t
+    unfold Gw.advance
+    split
+    · exact (F4.finishSession g).trans (F4.setNow _ _)
+    · split
+      · exact ((F4.fireDue g _).trans (F4.finishSession _)).trans (ih _ t)
+      · exact F4.setNow g _
+
+theorem F4.sample (g : Gw) : F4 g g.sample := by
+  unfold Gw.sample Gw.sampleBuf Gw.sampleReg Gw.sampleState
+  have e : ∀ (x y : Gw) (o : Out), y.registered = x.registered → y.regIds = x.regIds → y.idseq = x.idseq →
+      y.exhausted = x.exhausted → y.txs = x.txs → F4 x (y.emit o) :=
+    fun x y o h1 h2 h3 h4 h5 => (F4.of_eq h1 h2 h3 h4 h5).trans (F4.emit y o)
+  split <;> split <;> split <;>
+    first
+    | exact F4.refl g
+    | exact (e _ _ _ rfl rfl rfl rfl rfl)
+    | exact (e _ _ _ rfl rfl rfl rfl rfl).trans (e _ _ _ rfl rfl rfl rfl rfl)
+    | exact ((e _ _ _ rfl rfl rfl rfl rfl).trans (e _ _ _ rfl rfl rfl rfl rfl)).trans (e _ _ _ rfl rfl rfl rfl rfl)
+
+theorem lookupByIdB_mem {g : Gw} {mid : UInt16} {t : Tx} (h : g.lookupByIdB mid = some t) : t ∈ g.txs := by
+  unfold lookupByIdB at h
+  cases hx : g.byIdB.lookup mid with
+  | none => simp [hx] at h
+  | some id => simp only [hx, Option.bind_some] at h; exact getTx_mem' h
+
+theorem F4.handleSn (g : Gw) (p : Pkt) : F4 g (g.handleSn p) := by
+  unfold Gw.handleSn
+  split
+  · exact F4.fail g _
+  · split
+    · exact F4.handleConnect g _ _ _ _
+    · split
+      · exact F4.connAuth g _ _ _ _ _
+      · exact F4.refl g
+    · split
+      · exact F4.connWillTopic g _ _ _ _ _ _
+      · exact F4.refl g
+    · split
+      · exact F4.connWillMsg g _ _ _ _
+      · exact F4.refl g
+    · exact F4.handleRegister g _ _
+    · exact F4.handleClientPublish g _ _ _ _ _ _ _
+    · exact F4.mqttSend g _
+    · exact F4.handleSubscribe g _ _ _ _ _ _
+    · exact F4.handleUnsubscribe g _ _ _ _
+    · exact F4.handlePingreq g
+    · exact F4.handleDisconnect g _
+    · split
+      · rename_i t hl
+        split
+        · rename_i q st data snp n hk
+          exact F4.bpRegack g t q st data snp _ n (lookupByIdB_mem hl) hk
+        · exact F4.refl g
+      · exact F4.refl g
+    · split
+      · split
+        · split
+          · exact F4.refl g
+          · split
+            · exact F4.finishTx g _
+            · exact F4.proceedMQ g _ _ _
+        · exact F4.refl g
+      · exact F4.refl g
+    · split
+      · split
+        · split
+          · exact F4.refl g
+          · exact F4.proceedMQ g _ _ _
+        · exact F4.refl g
+      · exact F4.refl g
+    · split
+      · split
+        · split
+          · exact F4.refl g
+          · exact F4.proceedMQ g _ _ _
+        · exact F4.refl g
+      · exact F4.refl g
+    · exact F4.fail g _
+
+theorem F4.handleMq (g : Gw) (p : MqPkt) : F4 g (g.handleMq p) := by
+  unfold Gw.handleMq
+  split
+  · split
+    · exact F4.connConnack g _ _ _
+    · exact F4.refl g
+  · split
+    · split
+      · exact (F4.finishTx g _).trans (F4.snSend _ _ _)
+      · exact F4.refl g
+    · exact F4.refl g
+  · exact F4.snSend g _ _
+  · exact F4.snSend g _ _
+  · split
+    · split
+      · split
+        · split
+          · exact (F4.finishTx g _).trans (F4.snSend _ _ _)
+          · exact (F4.finishTx g _).trans (F4.snSend _ _ _)
+        · exact (F4.finishTx g _).trans (F4.fail _ _)
+      · exact F4.refl g
+    · exact F4.refl g
+  · exact F4.snSend g _ _
+  · split
+    · exact F4.refl g
+    · exact F4.snSend g _ _
+  · exact F4.handleBrokerPublish g _ _ _ _ _ _
+  · split
+    · split
+      · split
+        · exact F4.refl g
+        · exact F4.proceedSN g _ _ _ (by decide)
+      · exact F4.refl g
+    · exact F4.refl g
+  · exact F4.fail g _
+
+theorem F4.handleEvent (g : Gw) (ev : Event) : F4 g (g.handleEvent ev) := by
+  unfold Gw.handleEvent
+  split
+  · split
+    · exact F4.handleSn g _
+    · exact F4.fail g _
+  · exact F4.handleMq g _
+  · exact F4.fail g _
+  · split <;> exact F4.fail g _
+  · exact F4.fail g _
+  · exact F4.refl g
+
+theorem F4.step (g : Gw) (t : Nat) (ev : Event) : F4 g (g.step t ev) := by
+  unfold Gw.step Gw.stepCore Gw.deliver
+  have q1 := F4.advance 100000 g t
+  split
+  · exact (q1.trans (F4.finishSession _)).trans (F4.sample _)
+  · exact ((((q1.trans (F4.handleEvent _ ev)).trans (F4.advance 100000 _ t)).trans (F4.finishSession _))).trans (F4.sample _)
+
+theorem F4.run (g : Gw) (evs : List (Nat × Event)) : F4 g (g.run evs) := by
+  unfold Gw.run
+  induction evs generalizing g with
+  | nil => exact F4.refl g
+  | cons e rest ih => simp only [List.foldl_cons]; exact (F4.step g e.1 e.2).trans (ih _)
+
+theorem K_init (cfg : Cfg) (a b : UInt16) (h : a.toNat ≤ b.toNat) : K (Gw.init cfg a b) := by
+  refine ⟨?_, ?_, ?_, ?_, .inr (seqOk_new a b h), ?_⟩
+  · intro i n hl; simp [Gw.init] at hl
+  · intro n i hl; simp [Gw.init] at hl
+  · intro n i hl; simp [Gw.init] at hl
+  · intro n n' i hl; simp [Gw.init] at hl
+  · intro t ht; simp [Gw.init] at ht
+
+/-- **C04 (ALL runs).** Within one session — whatever the client and the broker send, in any order and
+    with any timing: REGISTERs, SUBSCRIBEs, REGACKs for the gateway's own registrations (also stray or
+    repeated ones), broker messages on new topics, exhaustion of the ID range, everything else — a
+    TopicID that denotes a name in the gateway's registry at some point denotes the same name at every
+    later point. -/
+theorem c04_never_reassigned (cfg : Cfg) (a b : UInt16) (hab : a.toNat ≤ b.toNat) (evs1 evs2 : List (Nat × Event))
+    (i : UInt16) (n : Bytes) (h : ((Gw.init cfg a b).run evs1).registered.lookup i = some n) :
+    ((Gw.init cfg a b).run (evs1 ++ evs2)).registered.lookup i = some n := by
+  have hK1 := (F4.run (Gw.init cfg a b) evs1 (K_init cfg a b hab)).1
+  have e : (Gw.init cfg a b).run (evs1 ++ evs2) = ((Gw.init cfg a b).run evs1).run evs2 := by
+    unfold Gw.run; rw [List.foldl_append]
+  rw [e]
+  exact (F4.run _ evs2 hK1).2 i n h
 
 end Bisquitt.Gw
